@@ -142,6 +142,9 @@ def _gen_world(r):
     else:
         w["shank_of"] = None
     w["nwindow"] = r.choice([1008, 1200, 1500, 2400, 3600, 6000])
+    if r.random() < 0.25:      # length an exact number of window steps (+-1)
+        k = r.randrange(0, 4)
+        w["ns"] = max(1000, k * (w["nwindow"] - 576) + w["nwindow"] + r.choice([-1, 0, 0, 1]))
     w["extra"] = r.choice(["", "", "_x"])        # suffix of the shank folder names (init_params(extra=...))
     w["orig_chunk"] = r.choice([0.02, 0.05, 1.0])
     return w
@@ -548,6 +551,12 @@ def _check_outputs(W, st, sig0, ctx):
                 n = raw.shape[0]
                 if not st["compress"] and f.stat().st_size % (2 * len(chns)) != 0:
                     raise Violation("C04.S4", f"{sig0}:output-frames:{band}", f"{rel}: size is not a whole number of frames | " + ctx)
+                fsz = sr.meta.get("fileSizeBytes")
+                want_sz = (ns if band == "ap" else n) * len(chns) * 2
+                if fsz is None or int(fsz) != want_sz:
+                    raise Violation("C04.S4", f"{sig0}:output-meta-size:{band}", f"{rel}: its .meta says fileSizeBytes={fsz}, the data hold {want_sz} bytes | " + ctx)
+                if band == "lf" and float(sr.meta.get("imSampRate", 0)) != 2500.0:
+                    raise Violation("C04.S4", f"{sig0}:output-meta-rate:lf", f"{rel}: LF .meta says imSampRate={sr.meta.get('imSampRate')} | " + ctx)
                 if band == "ap":
                     if n != ns:
                         raise Violation("C04.S4", f"{sig0}:output-ns:ap", f"{rel}: {n} samples, original has {ns} | " + ctx)
